@@ -127,12 +127,12 @@ def run_history(ctx, cssutils, rng, use_global=False, ops_in=None, raising_in=No
             if script is not None:
                 op = script[step]
             else:
-                kinds = ['add'] * 4 + ['remove'] * 3 + ['remove-unknown', 'default', 'default-none', 'add-remove', 'default-detour']
+                kinds = ['add'] * 4 + ['add-many'] * 2 + ['remove'] * 3 + ['remove-unknown', 'default', 'default-none', 'add-remove', 'default-detour']
                 if not use_global:
-                    kinds += ['remove-builtin', 'readd-builtin', 'remove-all-readd']
+                    kinds += ['remove-builtin', 'readd-builtin', 'remove-all-readd', 'remove-all-customs']
                 k = rng.choice(kinds)
                 op = [k]
-                if k in ('add', 'add-remove'):
+                if k in ('add', 'add-remove', 'add-many'):
                     if not absent:
                         continue
                     op.append(rng.choice(absent))
@@ -164,6 +164,19 @@ def run_history(ctx, cssutils, rng, use_global=False, ops_in=None, raising_in=No
                 reg.addProfile(op[1], pd, md)
                 # the dictionaries handed over stay the caller's: what happens to them afterwards is none of the registry's business
                 spoil(pd, md)
+            elif k == 'add-many':
+                # the same profile through the other door: addProfiles([...]) registers what addProfile registers
+                props, macros = CUSTOM[op[1]]
+                pd, md = dict(props), (dict(macros) if macros else None)
+                reg.addProfiles([(op[1], pd, md)])
+                spoil(pd, md)
+            elif k == 'remove-all-customs':
+                # empty the registry, then only the custom profiles come back: nothing of what was there before may linger
+                customs = [p for p in reg.profiles if p in CUSTOM]
+                reg.removeProfile(all=True)
+                for c in customs:
+                    props, macros = CUSTOM[c]
+                    reg.addProfile(c, dict(props), dict(macros) if macros else None)
             elif k == 'default-detour':
                 # the usual save / change / restore of the defaults leaves things as they were
                 saved = reg.defaultProfiles
